@@ -38,14 +38,14 @@ theorem flag_iff_rule (ops : Ops α μ φ) {nc ns : Nat} (x : Fin nc → Fin ns 
 
 /-- The theorem applies verbatim to the IEEE instances the driver executes, e.g. float32 data against a float64
 range (the production call): the mean is `Float.ofNat count / Float.ofNat nc`, compared with `> p`. -/
-example (factor fs v p : Float) {nc ns : Nat} (x : Fin nc → Fin ns → Float32) (rg : Range Float nc) :
-    ∃ fl, flags (ops3264 factor fs v p) ns (toRows x) rg.toList = .ok fl ∧ fl.length = ns ∧
+example (d64 vr : Bool) (factor fs v p : Float) {nc ns : Nat} (x : Fin nc → Fin ns → Float32) (rg : Range Float nc) :
+    ∃ fl, flags (ops3264 d64 vr factor fs v p) ns (toRows x) rg.toList = .ok fl ∧ fl.length = ns ∧
       ∀ (t : Nat) (ht : t < ns) (hl : t < fl.length),
         (fl[t] = true ↔
-          decide (Float.ofNat (countOver (ops3264 factor fs v p) x rg.at ⟨t, ht⟩) / Float.ofNat nc > p) = true ∨
-          (∃ h : t + 1 < ns, decide (Float.ofNat (countSlew (ops3264 factor fs v p) x t h) / Float.ofNat nc > p) = true) ∨
+          decide (Float.ofNat (countOver (ops3264 d64 vr factor fs v p) x rg.at ⟨t, ht⟩) / Float.ofNat nc > p) = true ∨
+          (∃ h : t + 1 < ns, decide (Float.ofNat (countSlew (ops3264 d64 vr factor fs v p) x t h) / Float.ofNat nc > p) = true) ∨
           (t + 1 = ns ∧ decide ((0 : Float) > p) = true)) :=
-  flag_iff_rule (ops3264 factor fs v p) x rg
+  flag_iff_rule (ops3264 d64 vr factor fs v p) x rg
 
 /-- The same with the proportion `a/b` tested in exact integers: "more than `a/b` of the `nc` channels"
 is `count · b > a · nc`; the last sample is flagged by the 98 % criterion only. -/
